@@ -63,6 +63,57 @@ where
     }
 }
 
+/// A user adapter that, when the search it belongs to has ended, runs a second search on the same connection
+/// configured with `adapter_chain_tail()` (clones of the adapters behind it - the documented use of that method)
+/// and records the referral list the second search's finish() reports.
+#[derive(Clone, Debug)]
+pub struct Respawn {
+    done: bool,
+    slot: std::sync::Arc<std::sync::Mutex<Option<Vec<String>>>>,
+}
+impl SoloMarker for Respawn {}
+
+#[async_trait]
+impl<'a> Adapter<'a, &'a str, Vec<&'a str>> for Respawn {
+    async fn start(&mut self, stream: &mut SearchStream<'a, &'a str, Vec<&'a str>>, base: &str, scope: Scope, filter: &str, attrs: Vec<&'a str>) -> LResult<()> {
+        stream.start(base, scope, filter, attrs).await
+    }
+    async fn next(&mut self, stream: &mut SearchStream<'a, &'a str, Vec<&'a str>>) -> LResult<Option<ResultEntry>> {
+        let r = stream.next().await;
+        if let (Ok(None), false) = (&r, self.done) {
+            self.done = true;
+            let tail = stream.adapter_chain_tail().await;
+            let mut ldap = stream.ldap_handle().clone();
+            let refs = match ldap.streaming_search_with(tail, "cn=second", Scope::Base, "(objectClass=*)", vec!["*"]).await {
+                Ok(mut s2) => {
+                    let mut err = None;
+                    loop {
+                        match s2.next().await {
+                            Ok(Some(_)) => continue,
+                            Ok(None) => break,
+                            Err(e) => {
+                                err = Some(err_kind(&e));
+                                break;
+                            }
+                        }
+                    }
+                    let res = s2.finish().await;
+                    match err {
+                        Some(e) => vec![format!("error:{}", e)],
+                        None => res.refs,
+                    }
+                }
+                Err(e) => vec![format!("start-error:{}", err_kind(&e))],
+            };
+            *self.slot.lock().unwrap() = Some(refs);
+        }
+        r
+    }
+    async fn finish(&mut self, stream: &mut SearchStream<'a, &'a str, Vec<&'a str>>) -> LdapResult {
+        stream.finish().await
+    }
+}
+
 #[derive(Clone, Copy, Debug, PartialEq, Eq, Hash, Serialize, Deserialize)]
 pub enum Variant {
     Direct,
@@ -79,6 +130,8 @@ pub enum Variant {
     PagedEntriesOnly,
     /// a user adapter that returns an error of its own when a reference arrives
     FailOnRef,
+    /// chain [Respawn, EntriesOnly]: after the end of the search a second one is run with clones of the chain tail
+    ChainTail,
 }
 
 #[derive(Clone, Copy, Debug, PartialEq, Eq, Hash, Serialize, Deserialize)]
@@ -111,7 +164,7 @@ pub struct Case {
 
 fn strat(_: &Ctx) -> BoxedStrategy<Case> {
     let item = (prop_oneof![4 => respgen::entry_resp(), 2 => respgen::reference_resp(), 2 => respgen::intermediate_resp()], proptest::option::weighted(0.4, resp_controls(2))).prop_map(|(resp, ctrls)| ItemSpec { resp, ctrls });
-    let variant = prop_oneof![3 => Just(Variant::Direct), 3 => Just(Variant::EntriesOnly), 1 => Just(Variant::Pass), 1 => Just(Variant::PassEntriesOnly), 1 => Just(Variant::EntriesOnlyPass), 2 => Just(Variant::Conv), 2 => Just(Variant::Paged), 2 => Just(Variant::EntriesOnlyPaged), 2 => Just(Variant::PagedEntriesOnly), 2 => Just(Variant::FailOnRef)];
+    let variant = prop_oneof![3 => Just(Variant::Direct), 3 => Just(Variant::EntriesOnly), 1 => Just(Variant::Pass), 1 => Just(Variant::PassEntriesOnly), 1 => Just(Variant::EntriesOnlyPass), 2 => Just(Variant::Conv), 2 => Just(Variant::Paged), 2 => Just(Variant::EntriesOnlyPaged), 2 => Just(Variant::PagedEntriesOnly), 2 => Just(Variant::FailOnRef), 2 => Just(Variant::ChainTail)];
     let call = prop_oneof![5 => Just(CallKind::Next), 2 => Just(CallKind::Finish), 2 => Just(CallKind::State)];
     let script = prop_oneof![
         3 => vec(call, 1..=14),
@@ -129,6 +182,8 @@ fn strat(_: &Ctx) -> BoxedStrategy<Case> {
             let paged = matches!(variant, Variant::Paged | Variant::EntriesOnlyPaged | Variant::PagedEntriesOnly);
             // the final result of a paged search must not carry a second paging control of its own
             let fin_ctrls = if paged { fin_ctrls.map(|v: Vec<RCtl>| v.into_iter().filter(|c| c.oid != crate::props::c16::PAGED_OID).collect()) } else { fin_ctrls };
+            // the second search of the ChainTail variant needs a live connection
+            let cut_after = if variant == Variant::ChainTail { None } else { cut_after };
             Case { items, fin, fin_ctrls, variant, script, cut_after, page_cuts, sched }
         })
         .boxed()
@@ -181,7 +236,7 @@ fn page_ends(c: &Case) -> Vec<usize> {
 
 /// Reference state machine (DESIGN.md Appendix B).
 fn model(c: &Case) -> Vec<Ret> {
-    let entries_only = matches!(c.variant, Variant::EntriesOnly | Variant::PassEntriesOnly | Variant::EntriesOnlyPass | Variant::EntriesOnlyPaged | Variant::PagedEntriesOnly);
+    let entries_only = matches!(c.variant, Variant::EntriesOnly | Variant::PassEntriesOnly | Variant::EntriesOnlyPass | Variant::EntriesOnlyPaged | Variant::PagedEntriesOnly | Variant::ChainTail);
     let paged = matches!(c.variant, Variant::Paged | Variant::EntriesOnlyPaged | Variant::PagedEntriesOnly);
     let avail = if paged {
         // the server closes after serving page k (if that is not the last page): items of pages 0..=k are available
@@ -347,11 +402,29 @@ pub fn check(case: &Case, obs: &mut Obs) -> Result<(), Fail> {
                 if c2.cut_after.is_some() {
                     wire.end_read(ReadEnd::Eof);
                 }
+                if c2.variant == Variant::ChainTail {
+                    // the second search (started by the Respawn adapter): one reference of its own, then success
+                    loop {
+                        match wire.recv().await {
+                            Recv::Msg(Ok(m2), _, _) => {
+                                if let crate::model::Req::Search { .. } = m2.req {
+                                    let mut b = RespMsg::new(m2.id, Resp::Reference(vec!["ldap://second/only".into()])).encode();
+                                    b.extend_from_slice(&RespMsg::new(m2.id, Resp::result(5, Res::ok("second"))).encode());
+                                    wire.push(&b);
+                                }
+                            }
+                            Recv::Closed | Recv::Garbage(_) => break,
+                            _ => {}
+                        }
+                    }
+                }
             }
         });
         let mut ldap = conn.ldap.clone();
         let script = c.script.clone();
         let variant = c.variant;
+        let slot: std::sync::Arc<std::sync::Mutex<Option<Vec<String>>>> = Default::default();
+        let slot2 = slot.clone();
         let jh = tokio::spawn(async move {
             let (base, filter, attrs) = ("dc=x", "(objectClass=*)", vec!["*"]);
             match variant {
@@ -378,6 +451,10 @@ pub fn check(case: &Case, obs: &mut Obs) -> Result<(), Fail> {
                             let ad: Vec<Box<dyn Adapter<_, _>>> = vec![Box::new(ldap3::adapters::PagedResults::new(3)), Box::new(EntriesOnly::new())];
                             ldap.streaming_search_with(ad, base, Scope::Subtree, filter, attrs).await
                         }
+                        Variant::ChainTail => {
+                            let ad: Vec<Box<dyn Adapter<_, _>>> = vec![Box::new(Respawn { done: false, slot: slot2 }), Box::new(EntriesOnly::new())];
+                            ldap.streaming_search_with(ad, base, Scope::Subtree, filter, attrs).await
+                        }
                         Variant::PassEntriesOnly => {
                             let ad: Vec<Box<dyn Adapter<_, _>>> = vec![Box::new(Pass), Box::new(EntriesOnly::new())];
                             ldap.streaming_search_with(ad, base, Scope::Subtree, filter, attrs).await
@@ -401,15 +478,20 @@ pub fn check(case: &Case, obs: &mut Obs) -> Result<(), Fail> {
         quiesce().await;
         srv.abort();
         let _ = srv.await;
-        got
+        let second = slot.lock().unwrap().clone();
+        (got, second)
     });
-    let got = match out {
+    let (got, second) = match out {
         SimResult::Done(v) => v,
         SimResult::Hang => fail!("c10:hang", "stream call never returned"),
     };
     if let Some(Ret::Panic(p)) = got.last() {
         let sig = if p.contains("search.rs") && p.contains("Option::unwrap()") { "c10:next-after-end-panics".to_string() } else { panic_sig(p) };
         fail!(sig, "stream call panicked: {} (variant {:?}, script {:?})", p, case.variant, case.script);
+    }
+    if let Some(refs) = &second {
+        obs.label("second-search-through-chain-tail");
+        ensure!(refs == &vec!["ldap://second/only".to_string()], "c10:chain-tail-refs", "a second search configured with adapter_chain_tail() after the first one had collected {} reference URIs reports the referral list {:?}; its server sent exactly [\"ldap://second/only\"]", case.items.iter().map(|i| ref_uris(&i.resp).len()).sum::<usize>(), refs);
     }
     if case.variant == Variant::Conv {
         if case.cut_after.map(|k| (k as usize) <= case.items.len()).unwrap_or(false) {
@@ -444,7 +526,7 @@ pub fn check(case: &Case, obs: &mut Obs) -> Result<(), Fail> {
     }
     let want = model(case);
     ensure!(got.len() == want.len(), "c10:script-length", "{} calls made, {} answered: {:?}", want.len(), got.len(), got.last());
-    let entries_only = matches!(case.variant, Variant::EntriesOnly | Variant::PassEntriesOnly | Variant::EntriesOnlyPass | Variant::EntriesOnlyPaged | Variant::PagedEntriesOnly);
+    let entries_only = matches!(case.variant, Variant::EntriesOnly | Variant::PassEntriesOnly | Variant::EntriesOnlyPass | Variant::EntriesOnlyPaged | Variant::PagedEntriesOnly | Variant::ChainTail);
     for (k, (g, w)) in got.iter().zip(&want).enumerate() {
         let call = case.script[k];
         let ok = match (g, w) {
@@ -512,7 +594,7 @@ pub fn property() -> Property {
     Property {
         id: "C10",
         level: "exploration",
-        rule: "generated: a server item sequence (0-8 of entry / reference with 1-3 URIs / intermediate, each with 0-2 controls), a final result (any code, referrals, controls), optionally a connection cut after k PDUs; a stream variant (direct, EntriesOnly, user pass-through adapter, [pass-through, EntriesOnly], [EntriesOnly, pass-through], PagedResults and [EntriesOnly, PagedResults] with the item sequence served in generated pages (optionally with the connection lost at a page boundary), a user adapter that fails on a reference message, or the search() call); a call script of 1-14 calls from next/finish/state in any order (incl. next after the end, early finish, next after finish, double finish). Oracle: reference state machine of DESIGN.md Appendix B - every return value (items with their controls in server order, Ok(None), errors, finish() = server result iff read to the end else code 88, second finish code 80) and every state() equal the model; search(): entries in order, referral list = result referrals + all reference URIs as a multiset, intermediates dropped. Non-trivial: the script leaves the happy path or the item sequence mixes >=2 kinds. Distinct = debug rendering of the case.",
+        rule: "generated: a server item sequence (0-8 of entry / reference with 1-3 URIs / intermediate, each with 0-2 controls), a final result (any code, referrals, controls), optionally a connection cut after k PDUs; a stream variant (direct, EntriesOnly, user pass-through adapter, [pass-through, EntriesOnly], [EntriesOnly, pass-through], PagedResults and [EntriesOnly, PagedResults] with the item sequence served in generated pages (optionally with the connection lost at a page boundary), a user adapter that fails on a reference message, a user adapter that runs a second search configured with adapter_chain_tail() once the first has ended, or the search() call); a call script of 1-14 calls from next/finish/state in any order (incl. next after the end, early finish, next after finish, double finish). Oracle: reference state machine of DESIGN.md Appendix B - every return value (items with their controls in server order, Ok(None), errors, finish() = server result iff read to the end else code 88, second finish code 80) and every state() equal the model; search(): entries in order, referral list = result referrals + all reference URIs as a multiset, intermediates dropped. Non-trivial: the script leaves the happy path or the item sequence mixes >=2 kinds. Distinct = debug rendering of the case.",
         assumptions: &["all PDUs of the search are delivered before the calls are made, so call results do not depend on timing", "synthetic results are compared by code only"],
         lanes: vec![Box::new(PLane { name: "streams", cases: |t| t.pick(2_000, 30_000), strat, check })],
         workers: (8, 16),
